@@ -62,7 +62,7 @@ pub fn run_tick(
     let u = universe();
     let mut engine =
         engine_for(pre, kind, workers).map_err(|e| (TickFailure::Setup(e), None))?;
-    run_tick_on(&mut engine, seq).map_err(|f| {
+    run_tick_on(&mut engine, Some(pre), seq).map_err(|f| {
         let st = engine.state().clone();
         let _ = u;
         (f, Some(st))
@@ -70,13 +70,18 @@ pub fn run_tick(
 }
 
 /// Same on a caller-owned engine (multi-tick histories).
-pub fn run_tick_on(engine: &mut Engine, seq: &[Cand]) -> Result<TickOutcome, TickFailure> {
+pub fn run_tick_on(
+    engine: &mut Engine,
+    pre_ref: Option<&RefState>,
+    seq: &[Cand],
+) -> Result<TickOutcome, TickFailure> {
     let u = universe();
     let pre = engine.state().clone();
     let tx = engine.begin();
     let mut apply_results = Vec::new();
     for (rule, w, n) in seq {
-        match engine.apply_in_warp(tx, u.warp(*w), rule, &u.node(*n), &[]) {
+        let stack = pre_ref.map(|p| descent_stack(p, *w)).unwrap_or_default();
+        match engine.apply_in_warp(tx, u.warp(*w), rule, &u.node(*n), &stack) {
             Ok(r) => apply_results.push(format!("{r:?}")),
             Err(e) => {
                 engine.abort(tx);
@@ -123,6 +128,28 @@ pub fn run_tick_on(engine: &mut Engine, seq: &[Cand]) -> Result<TickOutcome, Tic
             }
         }
     }
+}
+
+/// The chain of portal slots from the root instance down to `w` (root → … → w), as the engine's
+/// `descent_stack` argument expects.
+pub fn descent_stack(pre: &RefState, w: W) -> Vec<warp_core::AttachmentKey> {
+    let u = universe();
+    let mut chain = Vec::new();
+    let mut cur = w;
+    let mut guard = 0;
+    while let Some(inst) = pre.instances.get(&cur) {
+        let Some(slot) = inst.parent else { break };
+        chain.push(u.slot_key(slot));
+        cur = match slot {
+            world::RefSlot::Node(pw, _) | world::RefSlot::Edge(pw, _) => pw,
+        };
+        guard += 1;
+        if guard > 8 {
+            break;
+        }
+    }
+    chain.reverse();
+    chain
 }
 
 /// Byte fingerprint of everything C01/C02 call "the outcome": snapshot hashes, receipt entries
